@@ -9,27 +9,28 @@ open Goat.Facts
 
 /-! ### C02: who can move the proposal sequence / randao -/
 
-/-- only `SetProposalSeq` writes the sequence at run time, only `UpdateRandao` the randao (plus genesis) -/
-def seqRandaoWriters : List (String × String) :=
-  seqWriters.filter (fun e => e.2 == "Sequence.Set" || e.2 == "Sequence.Next" || e.2 == "Randao.Set")
+/-- the five voted bridge handlers -/
+def votedHandlers : List String :=
+  ["x/bitcoin/keeper.msgServer.NewBlockHashes", "x/bitcoin/keeper.msgServer.NewConsolidation", "x/bitcoin/keeper.msgServer.NewPubkey",
+   "x/bitcoin/keeper.msgServer.ProcessWithdrawal", "x/bitcoin/keeper.msgServer.ReplaceWithdrawal"]
 
+/-- `seqReach` (regenerated from the source) lists the entry points from which a write of the relayer keeper's
+    Sequence / Randao item is statically reachable, through any chain of helpers and through the keeper interfaces —
+    so extracting or inlining a helper does not change it.  The writes are reachable only from the five voted bridge
+    handlers and from genesis. -/
 theorem seq_writers_closed :
-    seqRandaoWriters.all (fun e =>
-      e == ("x/relayer/keeper.Keeper.SetProposalSeq", "Sequence.Set") ||
-      e == ("x/relayer/keeper.Keeper.UpdateRandao", "Randao.Set") ||
-      e.1 == "x/relayer/module.InitGenesis") = true := by decide
+    seqReach.all (fun e => votedHandlers.contains e.1 || e.1 == "x/relayer/module.InitGenesis") = true := by decide
 
-/-- `SetProposalSeq` / `UpdateRandao` are called exactly by the five voted bridge handlers -/
+/-- … and from exactly these five (no voted handler lost its write) -/
 theorem seq_callers_are_the_five_voted_handlers :
-    seqCallers.all (fun e =>
-      ["x/bitcoin/keeper.msgServer.NewBlockHashes", "x/bitcoin/keeper.msgServer.NewConsolidation", "x/bitcoin/keeper.msgServer.NewPubkey",
-       "x/bitcoin/keeper.msgServer.ProcessWithdrawal", "x/bitcoin/keeper.msgServer.ReplaceWithdrawal"].contains e.1) = true := by decide
+    votedHandlers.all (fun h => seqReach.any (fun e => e.1 == h)) = true ∧
+    ((seqReach.map (·.1)).filter (fun n => n != "x/relayer/module.InitGenesis")).all (fun n => votedHandlers.contains n) = true := by decide
 
-/-- each of the five calls both, and each of them starts with `VerifyProposal` -/
+/-- each of the five reaches both the sequence and the randao write, and each of them starts with `VerifyProposal` -/
 theorem voted_handlers_verify_and_consume :
     ["NewBlockHashes", "NewConsolidation", "NewPubkey", "ProcessWithdrawal", "ReplaceWithdrawal"].all (fun h =>
-      seqCallers.contains ("x/bitcoin/keeper.msgServer." ++ h, "SetProposalSeq") &&
-      seqCallers.contains ("x/bitcoin/keeper.msgServer." ++ h, "UpdateRandao") &&
+      seqReach.contains ("x/bitcoin/keeper.msgServer." ++ h, "Sequence.Set") &&
+      seqReach.contains ("x/bitcoin/keeper.msgServer." ++ h, "Randao.Set") &&
       msgServerFirstChecks.contains ("bitcoin.msgServer." ++ h, "VerifyProposal")) = true := by decide
 
 /-! ### C07: sources of non-determinism -/
